@@ -289,6 +289,51 @@ def intrinsic_table(idx):
     return out
 
 
+def check_options_forwarded(idx, run):
+    """Every temporary VariablesAccessInfo created inside a
+    reference_accesses method and merged into the result is created with
+    the caller's options unchanged (the options decide, e.g., whether
+    array-shape inquiries count as reads)."""
+    base = idx.get_class("psyclone.psyir.nodes.node.Node")
+    n = 0
+    for cls in idx.all_subclasses(base, include_self=True):
+        func = cls.methods.get("reference_accesses")
+        if func is None:
+            continue
+        param = func.args.args[1].arg if len(func.args.args) > 1 else None
+        for stmt in ast.walk(func):
+            if not (isinstance(stmt, ast.Assign) and
+                    isinstance(stmt.value, ast.Call) and
+                    ast.unparse(stmt.value.func) == "VariablesAccessInfo"):
+                continue
+            name = ast.unparse(stmt.targets[0])
+            merged = any(isinstance(c, ast.Call) and
+                         ast.unparse(c.func) == f"{param}.merge" and c.args
+                         and ast.unparse(c.args[0]) == name
+                         for c in ast.walk(func))
+            collects = any(isinstance(c, ast.Call) and isinstance(
+                c.func, ast.Attribute) and
+                c.func.attr == "reference_accesses" and c.args and
+                ast.unparse(c.args[0]) == name for c in ast.walk(func))
+            if not (merged and collects):
+                continue    # filled by add_access only: options play no role
+            n += 1
+            opts = [k for k in stmt.value.keywords if k.arg == "options"]
+            ok = bool(opts) and ast.unparse(opts[0].value) == \
+                f"{param}.options()"
+            run.check("C11.R2", ok, f"{cls.name}.reference_accesses",
+                      f"temporary '{name}' collects with the caller's "
+                      f"options",
+                      f"the temporary access info '{name}' that is merged "
+                      f"into the result is created with "
+                      f"'{ast.unparse(stmt.value)}' instead of the caller's "
+                      f"options: accesses that an option asks for (e.g. "
+                      f"COLLECT-ARRAY-SHAPE-READS: the array in "
+                      f"b(size(a)) = 1.0) are dropped for that part of the "
+                      f"statement", loc(cls.module, stmt))
+    run.floor("temporaries merged into the result", n, 1)
+
+
 def check_call_writes(idx, run):
     ccls = idx.get_class("psyclone.psyir.nodes.call.Call")
     func = ccls.methods["reference_accesses"]
@@ -315,14 +360,21 @@ def check_call_writes(idx, run):
               loc(mod, func))
     if "READ" in kinds:
         cond, pol = kinds["READ"]
+        stmt_test = [st.test for st in ast.walk(func)
+                     if isinstance(st, ast.If) and
+                     ast.unparse(st.test) == cond][0]
         # READ-only needs knowledge that the callee cannot modify arguments:
         # purity alone is not enough for subroutines
         sound = any(tok in cond for tok in ("intent", "is_function",
                                             "is_elemental_function",
                                             "argument_intents"))
+        atoms = sorted(" ".join(ast.unparse(v).split()) for v in (
+            stmt_test.values if isinstance(stmt_test, ast.BoolOp) and
+            isinstance(stmt_test.op, ast.Or) else [stmt_test]))
         run.check(
             "C11.R3", sound, cons,
-            "READ-only arguments only for callees that cannot write them",
+            "READ-only arguments only for callees that cannot write them "
+            f"(chosen when: {' or '.join(atoms)})",
             f"every Reference argument is reported as READ when "
             f"`{cond}` is {pol}: a PURE *subroutine* may still have "
             f"intent(out) / intent(inout) dummy arguments, so "
@@ -392,6 +444,7 @@ def check(idx, run):
     run.explanation = __doc__
     check_coverage(idx, run)
     check_order(idx, run)
+    check_options_forwarded(idx, run)
     check_call_writes(idx, run)
     check_access_store(idx, run)
     run.assumptions = ["component-level precision and aliasing are not "
